@@ -757,6 +757,7 @@ package xmpp
 //@   ensures[C05] result == stanzaName(name)
 
 //@ func (*stanzaEncoder).EncodeToken
+//@   hint appendcopy
 //@   ghost fromStr string
 //@   callsite (mellium.im/xmpp/jid.JID).String#1
 //@     after: fromStr = ret0
